@@ -24,7 +24,13 @@ NEEDS = {
  "C10-5": "SRv6 routing header in a capture that ends inside the segment list",
  "C10-6": "datagram whose conversion fails after a frame was dissected, then any datagram taking that message from the pool",
 }
-NEEDS.update(json.load(open(os.path.join(os.path.dirname(__file__), "seedneeds4.json"))) if os.path.exists(os.path.join(os.path.dirname(__file__), "seedneeds4.json")) else {})
+ROUND = {k: 4 for k in NEEDS}
+for rnd, fn in ((4, "seedneeds4.json"), (5, "seedneeds5.json")):
+    fp = os.path.join(os.path.dirname(os.path.abspath(__file__)), fn)
+    if os.path.exists(fp):
+        for k, v in json.load(open(fp)).items():
+            NEEDS[k] = v
+            ROUND[k] = rnd
 root = os.path.join(os.path.dirname(os.path.abspath(__file__)), "..", "seeded")
 for sid, needs in sorted(NEEDS.items()):
     d = os.path.join(root, sid)
@@ -33,6 +39,6 @@ for sid, needs in sorted(NEEDS.items()):
     m = json.load(open(os.path.join(d, "meta.json")))
     log = open(os.path.join(d, "check.log")).read() if os.path.exists(os.path.join(d, "check.log")) else ""
     caught = sorted(set(re.findall(r"^\[(C\d\d)\] VIOLATION", log, re.M)))
-    m.update(needs_to_manifest=needs, caught_by=" ".join(caught), round=4)
+    m.update(needs_to_manifest=needs, caught_by=" ".join(caught), round=ROUND[sid])
     json.dump(m, open(os.path.join(d, "meta.json"), "w"), indent=1)
     print(sid, m["caught_by"])
